@@ -8,8 +8,8 @@ from vlib import runner
 
 ID = "C07"
 MODULE = "PotasscoVerif.Props.C07"
-EXTRA_MODULES = ["PotasscoVerif.Lemmas.AspifLang", "PotasscoVerif.Props.C07b", "PotasscoVerif.Props.C05m"]
-THEOREMS = ["PotasscoVerif.C05m.C05_modes", "PotasscoVerif.C07.C07_fields_exact", "PotasscoVerif.C07.C07_ext_gating", "PotasscoVerif.C07.C07_incremental_needs_ext",
+EXTRA_MODULES = ["PotasscoVerif.Lemmas.AspifLang", "PotasscoVerif.Props.C07b", "PotasscoVerif.Props.C05m", "PotasscoVerif.Props.C03m"]
+THEOREMS = ["PotasscoVerif.C05m.C05_modes", "PotasscoVerif.C03m.C07_complete_steps", "PotasscoVerif.C03m.C07_sound_steps", "PotasscoVerif.C03m.C07_rejects_steps", "PotasscoVerif.C07.C07_fields_exact", "PotasscoVerif.C07.C07_ext_gating", "PotasscoVerif.C07.C07_incremental_needs_ext",
             "PotasscoVerif.C07.C07_assign_values", "PotasscoVerif.C03.C03_number_exact", "PotasscoVerif.C03.C03_reject_out_of_range",
             "PotasscoVerif.C07.C07_complete", "PotasscoVerif.C07.C07_sound", "PotasscoVerif.C07.C07_rejects", "PotasscoVerif.C07.C07_ext_rules_need_ext",
             "PotasscoVerif.C07.Spec.ruleOf", "PotasscoVerif.C07.Spec.sum", "PotasscoVerif.C07.rulesLoop_sound", "PotasscoVerif.C07.rulesLoop_complete",
